@@ -3,6 +3,7 @@
 Functions under contract (VCs generated from their real source):
   diffractive_imaging.object_models : ObjectConstraints.apply_hard_constraints, ObjectPixelated.obj
   tomography.object_models          : ObjectConstraints.apply_hard_constraints
+  diffractive_imaging.constraints   : BaseConstraints.__init__, constraints (getter, setter), add_constraint  - every model owns its dict
   diffractive_imaging.probe_models  : ProbeConstraints._probe_orthogonalization_constraint,
                                       ProbePixelated._apply_weights, ProbePixelated.initial_probe_weights (setter)
 Not under contract (bounded stand-in only): the 6-line dispatch ProbeConstraints.apply_hard_constraints / ProbePixelated.probe.
@@ -68,6 +69,17 @@ def make_registry():
         return interp.native(val.validate_tensor, value, name, dtype, ndim, shape, expand_dims)
 
     reg.models[val.validate_tensor] = m_validate_tensor
+
+    class _RestOfInitChain:
+        """`super()` inside BaseConstraints.__init__: the rest of the cooperative __init__ chain (ObjectBase / ProbeBase / nn.Module ...)
+        is not interpreted; ASSUMPTION: it runs BEFORE `_constraints` is assigned and never touches DEFAULT_CONSTRAINTS."""
+
+        _pyvc_value = True
+
+        def __init__(self, *a, **k):
+            pass
+
+    reg.models[super] = lambda interp, *a: _RestOfInitChain()
     import quantem.diffractive_imaging.probe_models as pmod
 
     reg.models[pmod.validate_tensor] = m_validate_tensor
@@ -610,7 +622,127 @@ def ipw_ensures(s):
 C_IPW = Contract(f"{PM}:ProbePixelated.initial_probe_weights.fset", setup=ipw_setup, requires=ipw_requires, ensures=ipw_ensures,
                  raises={ValueError: lambda s: s.wmode == "wrong_len"})
 
-CONTRACTS = AHC_ALL + [C_OBJPROP, C_TOM, C_GS, C_AW, C_IPW]
+# ================================================================================================================
+# 5. constraint bookkeeping: every model owns its constraint dict (BaseConstraints.__init__ / constraints / add_constraint)
+# ================================================================================================================
+# Python dicts are real dicts in the interpreter, so identity (`is`) and aliasing are decided exactly.
+
+BC = resolve(f"{CN}:BaseConstraints")
+PCC = resolve(f"{PM}:ProbeConstraints")
+CLASS_DEFAULTS = {OP: dict(OP.DEFAULT_CONSTRAINTS), PP: dict(PP.DEFAULT_CONSTRAINTS)}  # snapshot at import (before any run-time check)
+
+
+def _same_items(d, e):
+    return isinstance(d, dict) and isinstance(e, dict) and list(d.keys()) == list(e.keys()) and all(d[k] is e[k] or (not V.contains_sym((d[k], e[k])) and d[k] == e[k]) for k in d)
+
+
+def bk_models(ctx):
+    """which concrete model class + one other, already existing, model of the same class with its own dict"""
+    cls = pick(ctx, "model", [OP, PP])
+    other = Obj(cls, dict(_constraints=dict(cls.DEFAULT_CONSTRAINTS)))
+    return cls, other
+
+
+def bk_frame(s, tag):
+    cls = s.cls
+    return [(f"{tag}:class-defaults-unchanged", cls.DEFAULT_CONSTRAINTS == s.old.defaults and cls.DEFAULT_CONSTRAINTS == CLASS_DEFAULTS[cls]),
+            (f"{tag}:other-model-unchanged", s.other.fields["_constraints"] == s.old.other and s.other.fields["_constraints"] is s.old.other_id)]
+
+
+def bk_snapshot(s):
+    return NS(defaults=dict(s.cls.DEFAULT_CONSTRAINTS), other=dict(s.other.fields["_constraints"]), other_id=s.other.fields["_constraints"],
+              mine=dict(s.self.fields["_constraints"]) if "_constraints" in s.self.fields else None, mine_id=s.self.fields.get("_constraints"))
+
+
+def bcinit_setup(ctx):
+    cls, other = bk_models(ctx)
+    return NS(self=Obj(cls, {}), cls=cls, other=other, case=cls.__name__)
+
+
+def bcinit_ensures(s):
+    d = s.self.fields.get("_constraints")
+    cls = s.cls
+    return [("init:instance-dict-equals-class-defaults", isinstance(d, dict) and d == cls.DEFAULT_CONSTRAINTS),
+            ("init:instance-dict-is-a-fresh-copy(not the class-level DEFAULT_CONSTRAINTS object)", d is not cls.DEFAULT_CONSTRAINTS
+             and all(d is not k.__dict__.get("DEFAULT_CONSTRAINTS") for k in cls.__mro__)),
+            ("init:instance-dict-not-shared-with-another-model", d is not s.other.fields["_constraints"]),
+            ("init:loss-logs-are-fresh-empty-dicts", s.self.fields.get("_soft_constraint_loss") == {} and s.self.fields.get("_iter_constraint_losses") == {}
+             and s.self.fields.get("_soft_constraint_loss") is not s.self.fields.get("_iter_constraint_losses"))] + bk_frame(s, "init")
+
+
+C_BCINIT = Contract(f"{CN}:BaseConstraints.__init__", setup=bcinit_setup, ensures=bcinit_ensures, snapshot=bk_snapshot)
+
+
+def _own(cls, other):
+    return Obj(cls, dict(_constraints=dict(cls.DEFAULT_CONSTRAINTS)))
+
+
+def getter_setup(ctx):
+    cls, other = bk_models(ctx)
+    return NS(self=_own(cls, other), cls=cls, other=other, case=cls.__name__)
+
+
+C_BCGET = Contract(f"{CN}:BaseConstraints.constraints.fget", setup=getter_setup, snapshot=bk_snapshot,
+                   ensures=lambda s: [("getter:returns-the-instance's-own-dict", s.result is s.self.fields["_constraints"] and s.result is s.old.mine_id),
+                                      ("getter:own-dict-unchanged", s.self.fields["_constraints"] == s.old.mine)] + bk_frame(s, "getter"))
+
+
+def _request(ctx, cls, allow_empty=True):
+    """a constraint request: concrete keys (known / unknown), symbolic values"""
+    keys = list(cls.DEFAULT_CONSTRAINTS)
+    shape = pick(ctx, "request", ["one-known", "two-known", "unknown", "known-then-unknown"] + (["empty"] if allow_empty else []))
+    val = lambda n: ctx.fresh(n, "bool")
+    if shape == "empty":
+        return shape, {}
+    if shape == "one-known":
+        return shape, {keys[0]: val("v0")}
+    if shape == "two-known":
+        return shape, {keys[-1]: val("v0"), keys[1 % len(keys)]: val("v1")}
+    if shape == "unknown":
+        return shape, {"no_such_constraint": val("v0")}
+    return shape, {keys[0]: val("v0"), "no_such_constraint": val("v1")}
+
+
+def setter_setup(ctx):
+    cls, other = bk_models(ctx)
+    shape, c = _request(ctx, cls)
+    return NS(self=_own(cls, other), cls=cls, other=other, c=c, shape=shape, case=f"{cls.__name__},{shape}")
+
+
+def _written(s, req, tag):
+    mine = s.self.fields["_constraints"]
+    out = [(f"{tag}:still-the-same-own-dict-object", mine is s.old.mine_id),
+           (f"{tag}:requested-keys-hold-the-requested-values", all(k in mine and mine[k] is v for k, v in req.items())),
+           (f"{tag}:all-other-keys-unchanged", all(mine[k] is s.old.mine[k] or mine[k] == s.old.mine[k] for k in s.old.mine if k not in req)
+            and set(mine) == set(s.old.mine))]
+    return out + bk_frame(s, tag)
+
+
+def _bad(req, cls):
+    return any(k not in cls.DEFAULT_CONSTRAINTS for k in req)
+
+
+C_BCSET = Contract(f"{CN}:BaseConstraints.constraints.fset", setup=setter_setup, snapshot=bk_snapshot,
+                   ensures=lambda s: _written(s, s.c, "setter"),
+                   raises={KeyError: lambda s: _bad(s.c, s.cls)},
+                   on_raise=lambda s, E: bk_frame(s, "setter:on-KeyError") + [("setter:on-KeyError:no-unknown-key-stored", set(s.self.fields["_constraints"]) == set(s.old.mine))])
+
+
+def addc_setup(ctx):
+    cls, other = bk_models(ctx)
+    known = flag(ctx, "key_known")
+    key = list(cls.DEFAULT_CONSTRAINTS)[2 % len(cls.DEFAULT_CONSTRAINTS)] if known else "no_such_constraint"
+    return NS(self=_own(cls, other), cls=cls, other=other, key=key, value=ctx.fresh("value", "real"), case=f"{cls.__name__},{'known' if known else 'unknown'}")
+
+
+C_BCADD = Contract(f"{CN}:BaseConstraints.add_constraint", setup=addc_setup, snapshot=bk_snapshot,
+                   ensures=lambda s: _written(s, {s.key: s.value}, "add_constraint"),
+                   raises={KeyError: lambda s: s.key not in s.cls.DEFAULT_CONSTRAINTS},
+                   on_raise=lambda s, E: bk_frame(s, "add_constraint:on-KeyError") + [("add_constraint:on-KeyError:own-dict-unchanged", s.self.fields["_constraints"] == s.old.mine)])
+
+BOOKKEEPING = [C_BCINIT, C_BCGET, C_BCSET, C_BCADD]
+
+CONTRACTS = AHC_ALL + [C_OBJPROP, C_TOM, C_GS, C_AW, C_IPW] + BOOKKEEPING
 
 # ================================================================================================================
 # property-level lemmas (from the contract statements alone)
@@ -1066,6 +1198,96 @@ def fam_probe_property(tier="quick", seed=0):
             yield dict(n=n, H=H, W=W, seed=seed + n)
 
 
+def rt_history(inp):
+    """Multi-model history on the REAL classes: configuring one model must not change the constrained output of another one,
+    and a fresh model starts from the class defaults."""
+    import numpy as np
+    import torch
+    from quantem.diffractive_imaging.object_models import ObjectPixelated
+    from quantem.diffractive_imaging.probe_models import ProbePixelated
+
+    rng = np.random.default_rng(inp.get("seed", 0))
+    problems = []
+    if inp["kind"] == "object":
+        typ, S_ = inp["typ"], inp["S"]
+        mk = lambda: ObjectPixelated.from_uniform(num_slices=S_, slice_thicknesses=1.0 if S_ > 1 else None, obj_type=typ)
+        A = mk()
+        reqA = dict(inp["reqA"])
+        if inp.get("via") == "add":
+            for k, v in reqA.items():
+                A.add_constraint(k, v)
+        else:
+            A.constraints = reqA
+        x = torch.tensor(rng.normal(size=(S_, 2, 3)) * 2, dtype=torch.float64) if typ == "potential" else torch.tensor(
+            rng.uniform(0, 2, size=(S_, 2, 3)) * np.exp(1j * rng.uniform(-3, 3, size=(S_, 2, 3))), dtype=torch.complex128)
+        A._obj = torch.nn.Parameter(x.clone(), requires_grad=False)
+        before = A.apply_hard_constraints(x.clone(), mask=None).detach().clone()
+        consA = dict(A.constraints)
+        B = mk() if inp.get("B_first") is None else None
+        B = B or mk()
+        if inp.get("via") == "add":
+            for k, v in inp["reqB"].items():
+                B.add_constraint(k, v)
+        else:
+            B.constraints = dict(inp["reqB"])
+        after = A.apply_hard_constraints(x.clone(), mask=None).detach()
+        if dict(A.constraints) != consA:
+            diff = {k: (consA[k], A.constraints[k]) for k in consA if A.constraints[k] != consA[k]}
+            problems.append(f"configuring model B changed model A's constraints: {diff}")
+        if not torch.equal(before, after):
+            problems.append(f"constrained output of model A changed after configuring model B (max dev {float((before - after).abs().max()):.3g})")
+        if reqA.get("identical_slices") and S_ > 1 and float((after - after[0:1]).abs().max()) > 1e-12:
+            problems.append("model A: identical_slices was requested but its slices differ")
+        if typ == "potential" and reqA.get("positivity", True) and float(after.min()) < 0:
+            problems.append(f"model A: positivity requested but min value {float(after.min()):.3g} < 0")
+        C = mk()
+        if dict(C.constraints) != CLASS_DEFAULTS[OP] or dict(ObjectPixelated.DEFAULT_CONSTRAINTS) != CLASS_DEFAULTS[OP]:
+            bad = {k: (v, C.constraints.get(k)) for k, v in CLASS_DEFAULTS[OP].items() if C.constraints.get(k) != v}
+            problems.append(f"a fresh model does not start from the defaults: {bad}")
+        if A.constraints is B.constraints or A.constraints is ObjectPixelated.DEFAULT_CONSTRAINTS:
+            problems.append("constraint dict shared between models / with the class defaults")
+        # put the class-level dict back (a defective tree writes into it), so later cases start clean
+        ObjectPixelated.DEFAULT_CONSTRAINTS.clear(); ObjectPixelated.DEFAULT_CONSTRAINTS.update(CLASS_DEFAULTS[OP])
+    else:
+        n = inp["n"]
+        arr = _probe_stack(n, 3, 4, 0.6, inp.get("seed", 0)).astype(np.complex128)
+        mk = lambda: ProbePixelated.from_array(arr.copy(), dtype=torch.complex128)
+        A = mk()
+        A.constraints = {"orthogonalize_probe": True}
+        before = A.probe.detach().clone()
+        B = mk()
+        B.constraints = {"orthogonalize_probe": False}
+        after = A.probe.detach()
+        if not torch.equal(before, after):
+            problems.append("probe of model A changed after switching orthogonalisation off on model B")
+        o = after.reshape(n, -1)
+        G = o.conj() @ o.T
+        off = G - torch.diag(G.diagonal())
+        if n > 1 and float(off.abs().max()) > 1e-9 * float(G.diagonal().real.max()):
+            problems.append(f"model A: orthogonalize_probe requested but modes overlap ({float(off.abs().max()):.3g})")
+        C = mk()
+        if dict(C.constraints) != CLASS_DEFAULTS[PP]:
+            problems.append(f"a fresh probe model does not start from the defaults: {dict(C.constraints)}")
+        ProbePixelated.DEFAULT_CONSTRAINTS.clear(); ProbePixelated.DEFAULT_CONSTRAINTS.update(CLASS_DEFAULTS[PP])
+    return dict(violated=bool(problems), observed="; ".join(problems[:3]) or "ok",
+                expected="every model owns its constraints: model A keeps its requested constraints and its constrained output; fresh models have the defaults")
+
+
+def fam_history(tier="quick", seed=0):
+    for via in ("setter", "add"):
+        for S_ in (1, 3):
+            yield dict(kind="object", typ="potential", S=S_, reqA={"identical_slices": True}, reqB={"identical_slices": False, "positivity": False}, via=via, seed=seed + S_)
+            yield dict(kind="object", typ="potential", S=S_, reqA={"positivity": True, "fix_potential_baseline": True}, reqB={"fix_potential_baseline": False, "positivity": False}, via=via, seed=seed + S_)
+            yield dict(kind="object", typ="complex", S=S_, reqA={"identical_slices": True}, reqB={"identical_slices": False}, via=via, seed=seed + S_)
+            yield dict(kind="object", typ="pure_phase", S=S_, reqA={}, reqB={"identical_slices": True, "apply_fov_mask": True}, via=via, seed=seed + S_)
+    for n in (1, 2, 3):
+        yield dict(kind="probe", n=n, seed=seed + n)
+
+
+for _c in BOOKKEEPING:
+    _c.rt, _c.rt_family = rt_history, fam_history
+
+
 BOUNDED = [
     Bounded.from_rt("object constraints on random tensors (all configurations, non-triaged claims)", rt_obj, fam_obj,
                     "shapes <=3x3x2 (<=4x5x4 thorough), 3 object types, 4 mask kinds, fov/tie/positivity/baseline flags; float64"),
@@ -1076,6 +1298,8 @@ BOUNDED = [
     Bounded.from_rt("probe_model.probe with orthogonalisation on (dispatch through apply_hard_constraints)", rt_probe_property, fam_probe_property, "1..5 modes, images 3x3 / 4x5"),
     Bounded.from_rt("_apply_weights intensity / weight normalisation", rt_aw, fam_aw, "1..5 modes, images 3x3 / 4x6, 3 mean intensities, one zero weight"),
     Bounded.from_rt("initial_probe_weights setter", rt_ipw, fam_ipw, "1..5 modes, default / given / wrong-length"),
+    Bounded.from_rt("multi-model history: configuring one model leaves the others and the class defaults alone", rt_history, fam_history,
+                    "two + one fresh model per case; object models (3 types, 1 / 3 slices, setter and add_constraint) and probe models (1..3 modes)"),
 ]
 
 TRUSTED = [
@@ -1096,6 +1320,7 @@ ASSUMPTIONS = [
     "smoothing filters (gaussian_sigma, q_lowpass, q_highpass) are off, as the property's quantifier says; surface / TV terms are soft constraints and not part of apply_hard_constraints",
     "identical_slices with more than one slice: proved are tied slices, result = slice mean of the untied constrained object, and the type claims of that untied object; amplitude <= 1 and positivity of the mean follow by the step lemmas plus trusted induction (also bounded check)",
     "mode count 1..5 is enumerated for _apply_weights and the weights setter (the property's own range); Gram-Schmidt is proved for every mode count by induction",
+    "constraint bookkeeping: the rest of the cooperative __init__ chain behind `super().__init__` in BaseConstraints.__init__ (ObjectBase / ProbeBase / nn.Module / mixins) is not interpreted; it runs before `_constraints` is assigned and does not touch DEFAULT_CONSTRAINTS (full construction of the real classes is exercised by the bounded multi-model history check)",
     "probe center-of-mass constraint, random phase shifts and ProbeParametric/ProbeDIP/ObjectDIP wrappers are outside the claim",
     "the dispatch ProbeConstraints.apply_hard_constraints / ProbePixelated.probe (orthogonalize_probe switch) is covered by a bounded run-time check only, not by proof",
     "two literal claims are NOT met by the unchanged code and are reported as known findings (pure_phase amplitude m^2 under the FOV mask; complex amplitude not idempotent under a fractional FOV mask); what is proved in their place is stated in the obligations next to them",
